@@ -308,6 +308,88 @@ def generated_rule(rep, tier):
         rep.fail("GENERATED-BOUNDS@setOutOfBoundsPolicy", "generated setOutOfBoundsPolicy does not store its argument in this->policy")
 
 
+def effect_rule(rep):
+    """R4: the effect functions of the base checks are unconditional and stateless.
+    displayOutOf*Warning: every path to the exit inserts into std::cerr (directly or
+    through a same-unit helper that always does), and neither they nor their helpers
+    touch any other mutable object of static / thread storage duration (a remembered
+    'last message', a counter, a once-flag would make the warning depend on history).
+    throwOutOf*Exception: no path reaches the normal exit."""
+    unit = os.path.join(REPO, "src/Material/BoundsCheck.cxx")
+    d = cfgdump([unit], os.path.join(OUT, "C27", "effects"), funcs=r"^tfel::material::")
+    funcs = [f for f in load_functions(d)]
+    top = {}
+    for f in funcs:
+        if f.parent is None:
+            top.setdefault(f.qname, f)
+    STREAMS = ("std::cerr", "std::clog")
+
+    def helpers(f):
+        return [n["callee"] for n in f.stmts.values() if n["k"] == "CallExpr" and n.get("callee") in top]
+
+    def always_writes(f, seen=()):
+        """must-pass-through: every normal path entry -> exit passes an insertion into std::cerr."""
+        def writes(s):
+            n = f.stmts[s]
+            if n["k"] == "CXXOperatorCallExpr" and n.get("op") == "<<":
+                for x in f.walk(s):
+                    m = f.stmts[x]
+                    if m["k"] == "DeclRefExpr" and m.get("qname") in STREAMS:
+                        return True
+            if n["k"] == "CallExpr" and n.get("callee") in top and n["callee"] not in seen and n["callee"] != f.qname:
+                return always_writes(top[n["callee"]], seen + (f.qname,))
+            return False
+
+        def el(st, b, i, e):
+            if "s" in e and st == 0 and writes(e["s"]):
+                return (1,)
+            return (st,)
+        IN, _O = forward(f, (0,), el)
+        return 0 not in IN.get(f.exit, set()), 1 in IN.get(f.exit, set())
+
+    def mutable_statics(f, seen=None):
+        seen = set() if seen is None else seen
+        res = []
+        if f.qname in seen:
+            return res
+        seen.add(f.qname)
+        for g in [f] + [h for h in funcs if h.unit == f.unit and h.parent == f.id]:
+            for s, n in g.stmts.items():
+                if n["k"] == "DeclRefExpr" and n.get("globalStorage") and not n.get("constVar") and n.get("qname") not in STREAMS \
+                        and n.get("qname") != "std::cout":
+                    res.append((n.get("qname") or n.get("name"), g.short_loc(s)))
+                if n["k"] == "DeclStmt":
+                    for dd in n["decls"]:
+                        if dd.get("static"):
+                            res.append((dd.get("name"), g.short_loc(s)))
+        for c in helpers(f):
+            res += mutable_statics(top[c], seen)
+        return res
+    for kind, (thr, dis, _ops) in sorted(KINDS.items()):
+        fd = top.get("tfel::material::BoundsCheckBase::" + dis)
+        ft = top.get("tfel::material::BoundsCheckBase::" + thr)
+        if fd is None or ft is None:
+            raise AnalysisBroken("effect functions of %s not found in src/Material/BoundsCheck.cxx" % kind)
+        rep.count("effect functions", 2)
+        must, may = always_writes(fd)
+        ms = mutable_statics(fd)
+        if not must:
+            rep.fail("EFFECT@%s#conditional" % dis, "%s: %s has a path to its exit that writes no warning to std::cerr: under the Warning policy "
+                     "an out-of-bounds value can pass silently" % (rel(fd.loc), dis))
+        elif ms:
+            rep.fail("EFFECT@%s#stateful" % dis, "%s: %s depends on the mutable static/thread-local object %s (%s): whether a warning is "
+                     "written depends on earlier calls, not only on the value and its bounds" % (rel(fd.loc), dis, ms[0][0], rel(ms[0][1])))
+        else:
+            rep.ok("%s writes to std::cerr on every path and keeps no state" % dis)
+        IN, _O = forward(ft, (0,), lambda st, b, i, e: (st,))
+        if IN.get(ft.exit):
+            rep.fail("EFFECT@%s#returns" % thr, "%s: %s can return normally: under the Strict policy an out-of-bounds value does not raise"
+                     % (rel(ft.loc), thr))
+        else:
+            rep.ok("%s never returns normally" % thr)
+    rep.floor("effect functions", 6)
+
+
 def run(tier):
     rep = Report("C27", tier, "other", RULE)
     drv = os.path.join(VERIF, "drivers", "c27_bounds.cxx")
@@ -327,9 +409,10 @@ def run(tier):
     rep.floor("base checks", 6)
     rep.floor("tensor wrappers", 18)
     rep.floor("decision-table rows", 30)
+    effect_rule(rep)
     generated_rule(rep, tier)
     rep.floor("generated bound checks", 28)
     rep.assumptions += ["the generated side is decided for the corpus (all twelve kind x nature x rank arms of the bounds writer appear in it), "
                         "not for every behaviour the generator can emit",
-                        "the run-time default policy of a behaviour (None) and the messages are not checked"]
+                        "the run-time default policy of a behaviour (None) and the text of the messages are not checked"]
     return rep
